@@ -5,7 +5,7 @@
 use core::fmt;
 
 #[cfg(feature = "serde")]
-use serdect::serde::{Deserialize, Deserializer, Serialize, Serializer};
+use serdect::serde::{Deserialize, Deserializer, Serialize, Serializer, de::Error as _};
 use subtle::{Choice, ConditionallySelectable, ConstantTimeEq};
 #[cfg(feature = "zeroize")]
 use zeroize::DefaultIsZeroes;
@@ -358,7 +358,18 @@ where
         D: Deserializer<'de>,
     {
         let mut buffer = Self::ZERO.to_le_bytes();
-        serdect::array::deserialize_hex_or_bin(buffer.as_mut(), deserializer)?;
+        let expected_len = buffer.as_ref().len();
+        let decoded_len =
+            serdect::array::deserialize_hex_or_bin(buffer.as_mut(), deserializer)?.len();
+
+        // Human-readable formats decode the hex string into a prefix of the buffer and
+        // accept inputs shorter than the integer; reject anything but the exact size.
+        if decoded_len != expected_len {
+            return Err(D::Error::invalid_length(
+                decoded_len,
+                &"a byte string of the exact size of the integer",
+            ));
+        }
 
         Ok(Self::from_le_bytes(buffer))
     }
